@@ -19,7 +19,7 @@ import (
 
 	"verif/harness/internal/hist"
 	"verif/harness/internal/ops"
-	"verif/harness/internal/vt"
+	"verif/harness/vt"
 )
 
 func TestMain(m *testing.M) { vt.Main(m) }
